@@ -68,7 +68,7 @@ fn triggers(w: &World, graphs: &[&ModuleGraph]) -> Vec<&'static str> {
     }
     true
   });
-  if cycle {
+  if cycle || crate::world::redirect_budget_exceedable(w) {
     t.push("too-many-redirects-entry-depends-on-entry-point");
   }
   let asset_forms = has_item(&|f| match f {
